@@ -8,8 +8,9 @@
 //	<node> new <genesis>              a node holding only the genesis (state digest <genesis>)
 //	<node> produce <blk|-> gmp=<k>    leader path on the mempool copy (ProduceProposal)
 //	<node> validate <blk> gmp=<k>     replica path (ValidateProposal + BFT bookkeeping)
-//	<node> commit <blk> gmp=<k>       HandlePeerBlock(syncing=false): cached result on hash match, else replay
-//	<node> sync <blk> gmp=<k>         HandlePeerBlock(syncing=true)
+//	<node> commit <blk> gmp=<k> cert=<v>  HandlePeerBlock(syncing=false): cached result on hash match, else replay;
+//	                                      <v> names the version (signer bitmap) of the commit certificate delivered
+//	<node> sync <blk> gmp=<k> cert=<v>    HandlePeerBlock(syncing=true)
 //	<node> interrupt                  BFT round interrupt (drop cached result, reset FSM)
 //	<node> restart                    close + purge process caches + reopen
 package execdrv
@@ -22,6 +23,7 @@ import (
 	"runtime"
 
 	"github.com/canopy-network/canopy/lib"
+	"github.com/canopy-network/canopy/lib/crypto"
 	"verifharness/drv"
 	"verifharness/node"
 )
@@ -29,6 +31,57 @@ import (
 // NewChain wires a chain of nodes of one network to a driver output.
 func NewChain(o *drv.Out, net *node.Network, rng *rand.Rand, gmps []int) *Chain {
 	return &Chain{O: o, Net: net, Rng: rng, Mix: net.NewMixer(rng), Names: map[*node.Node]string{}, Gmps: gmps}
+}
+
+// Version returns the proposal with another valid version of its commit certificate: the same
+// payload signed by the given signers (see node.Network signer indices).
+func (c *Chain) Version(p *Proposal, signers []int) *Proposal {
+	q := *p
+	q.QC = c.Net.Certify(p.VS, p.Block, p.Results, signers, lib.Phase_PRECOMMIT_VOTE, p.RC, p.Proposer)
+	q.CertVersion = hex.EncodeToString(q.QC.Signature.Bitmap)
+	return &q
+}
+
+// Quorum picks a signer set with +2/3 of the committee's power: every known key signs except those
+// dropped, in the given preference order, as long as the threshold still holds.
+func (c *Chain) Quorum(vs lib.ValidatorSet, dropOrder []int) []int {
+	all := c.Net.AllSigners()
+	keep := map[int]bool{}
+	for _, i := range all {
+		keep[i] = true
+	}
+	cur := func() (out []int) {
+		for _, i := range all {
+			if keep[i] {
+				out = append(out, i)
+			}
+		}
+		return
+	}
+	for _, d := range dropOrder {
+		if !keep[d] {
+			continue
+		}
+		keep[d] = false
+		if signed, need := c.Net.SignedPower(vs, cur()); signed < need {
+			keep[d] = true
+		}
+	}
+	return cur()
+}
+
+// RandomQuorum is Quorum with a seeded random drop order (at most maxDrop signers are tried).
+func (c *Chain) RandomQuorum(vs lib.ValidatorSet, maxDrop int) []int {
+	all := c.Net.AllSigners()
+	order := c.Rng.Perm(len(all))
+	var drop []int
+	for _, k := range order {
+		if len(drop) >= maxDrop {
+			break
+		}
+		drop = append(drop, all[k])
+	}
+	return c.Quorum(vs, drop)
 }
 
 func (c *Chain) errText(err lib.ErrorI) string {
@@ -69,6 +122,12 @@ type Proposal struct {
 	QC      *lib.QuorumCertificate
 	Obs     string
 	NTx     int
+	// VS is the committee that certifies the block; Proposer the proposing node's key
+	VS       lib.ValidatorSet
+	Proposer crypto.PrivateKeyI
+	// CertVersion names the signer set of QC (hex of the signer bitmap): many valid +2/3 versions of
+	// one certificate exist, and which one a node stored for height h-1 must not matter at height h
+	CertVersion string
 }
 
 type Chain struct {
@@ -80,6 +139,8 @@ type Chain struct {
 	Gmps  []int
 	gi    int
 	Hold  bool
+	// LastCert: the version of the commit certificate each node stored for its last committed height
+	LastCert map[*node.Node]string
 	// CanonErrors: write every error as `rejected` (drivers whose model does not distinguish error codes)
 	CanonErrors bool
 	held        [][2]string
@@ -164,8 +225,10 @@ func (c *Chain) Propose(nd *node.Node, txs []node.MixTx, opName string) (*Propos
 	if signed, need := c.Net.SignedPower(vs, c.Net.AllSigners()); signed < need {
 		panic(fmt.Sprintf("harness: cannot build a +2/3 certificate at height %d: signed power %d, threshold %d (a committee member's key is unknown to the harness)", blk.BlockHeader.Height, signed, need))
 	}
+	p.VS, p.Proposer = vs, nd.Key
 	p.PropQC = c.Net.Certify(vs, block, results, c.Net.AllSigners(), lib.Phase_PROPOSE, rc, nd.Key)
 	p.QC = c.Net.Certify(vs, block, results, c.Net.AllSigners(), lib.Phase_PRECOMMIT_VOTE, rc, nd.Key)
+	p.CertVersion = hex.EncodeToString(p.QC.Signature.Bitmap)
 	c.Op(fmt.Sprintf("%s %s %s gmp=%d", name, opName, p.ID, k), "ok")
 	c.O.Count(fmt.Sprintf("block-txs:%s", Bucket(p.NTx)))
 	return p, true
@@ -214,7 +277,13 @@ func (c *Chain) Commit(nd *node.Node, p *Proposal, syncing bool) string {
 	} else {
 		res = fmt.Sprintf("ok state=%s obs=%s", nd.StateDigest(), Observed(nd, h))
 	}
-	c.Op(fmt.Sprintf("%s %s %s gmp=%d", c.Names[nd], op, p.ID, k), res)
+	c.Op(fmt.Sprintf("%s %s %s gmp=%d cert=%s", c.Names[nd], op, p.ID, k, p.CertVersion), res)
+	if err == nil {
+		if c.LastCert == nil {
+			c.LastCert = map[*node.Node]string{}
+		}
+		c.LastCert[nd] = p.CertVersion
+	}
 	switch {
 	case syncing:
 		c.O.Count("path:sync")
